@@ -217,7 +217,7 @@ theorem parseOffset_frag (e : Env) {v : Str} {i : Nat} {zs : Str} {o : Option In
     obtain ⟨rfl, mm100⟩ := twoDigits_zpad h2
     have hc : sg = '-' ∨ sg = '+' := hsg.symm
     have mm59 : mm ≤ 59 := by omega
-    rw [parseOffset_signed e sg hc hh100 mm59 (by simpa using h)]
+    rw [parseOffset_signed e sg hc hh100 mm59 (by omega) (by simpa using h)]
     rcases hsg with rfl | rfl
     · have : ('+' : Char) ≠ '-' := by decide
       simp only [this, if_false]
